@@ -3,7 +3,7 @@ import matplotlib.pyplot as plt
 from numpy import ndarray, float64
 from numpy import array, savez, savez_compressed, load, zeros
 from numpy import var, isfinite, exp, mean, argmax, percentile, cov
-from numpy import sqrt, maximum, diagonal, ndim
+from numpy import sqrt, maximum, minimum, diagonal, ndim, where
 from numpy.random import default_rng
 
 from inference.mcmc.utilities import Bounds, ChainProgressPrinter, effective_sample_size
@@ -218,6 +218,11 @@ class HamiltonianChain(MarkovChain):
         inv_mass = self.mass.inv_mass
         inv_mass = diagonal(inv_mass) if ndim(inv_mass) == 2 else inv_mass
         dt = 1e-5 * maximum(abs(t), self.ES.epsilon * sqrt(inv_mass))
+        if self.bounds is not None:
+            # keep the step small compared with the bounds, and step towards the
+            # inside of the bounds if a forward step would leave them
+            dt = minimum(dt, 1e-3 * self.bounds.width)
+            dt = where(t + dt > self.bounds.upper, -dt, dt)
         for i in range(self.n_parameters):
             t_new = t.copy()
             t_new[i] += dt[i]
